@@ -3,13 +3,10 @@
   Units and conventions: see Props1. Proved here, for every input:
 
   * `GL_N*_strain`        : Green-Lagrange strategy, pre-processing: the behaviour receives `E = ½ (Fᵀ F - 1)`;
-  * `GL_N*_stress_PK2/PK1/Cauchy` : the returned stress is `S = la tr(E) 1 + 2 mu E` (Saint-Venant Kirchhoff), `P = F S`
-                            (3D; in 2D the code goes through `J σ F⁻ᵀ`, compared exactly on every run), `σ = F S Fᵀ / det F`
-                            for K[1] = 1, 2, 0;
+  * `GL_N*_stress_PK2/Cauchy` : the returned stress is `S = la tr(E) 1 + 2 mu E` (Saint-Venant Kirchhoff), `σ = F S Fᵀ / det F` for K[1] = 1, 0
+                            (PK1 goes through `J σ F⁻ᵀ`: proved in 1D, compared exactly on every run in 2D/3D);
   * `GL_N*_tangent_DS_DEGL` : flavour K[2] = 1 returns the Lamé stiffness `la 1⊗1 + 2 mu I`, the derivative of `S`
                             with respect to `E` (S is linear in E);
-  * `GL_N2_DPK1_DF_is_derivative` : 2D, flavour K[2] = 2: for every derivation `δ` with `δ la = δ mu = 0`,
-                            `δP_i = Σ_j K_ij δF_j` (the returned operator is the derivative of the returned PK1 stress);
   * `HK_N*_strain`        : Hencky strategy, pre-processing: the behaviour receives `M diag(½ log1p(vp_i - 1)) Mᵀ` built
                             from the eigen-decomposition answered for the END-of-step deformation gradient.
   The other tangent flavours in 2D/3D and the Hencky post-processing are compared exactly (rational arithmetic, dual
@@ -83,25 +80,6 @@ theorem HK_N2_strain (hc : c * c = 2) :
   repeat' apply And.intro
   all_goals c55_ring hc
 
-section deriv
-variable (δ : Derivation ℤ K K)
-set_option maxHeartbeats 6400000 in
-/-- 2D, flavour dP/dF: the returned operator is the derivative of the returned first Piola-Kirchhoff stress -/
-theorem GL_N2_DPK1_DF_is_derivative (hla : δ la = 0) (hmu : δ mu = 0)
-    (hf0 : δ Fa0 = 0) (hf1 : δ Fa1 = 0) (hf2 : δ Fa2 = 0) (hf3 : δ Fa3 = 0) (hf4 : δ Fa4 = 0) :
-    [δ (Gen23.GL_N2_sm2_to2_s0 c c3 fn Fa0 Fa1 Fa2 Fa3 Fa4 F0 F1 F2 F3 F4 sa0 sa1 sa2 sa3 sa4 la mu), δ (Gen23.GL_N2_sm2_to2_s1 c c3 fn Fa0 Fa1 Fa2 Fa3 Fa4 F0 F1 F2 F3 F4 sa0 sa1 sa2 sa3 sa4 la mu), δ (Gen23.GL_N2_sm2_to2_s2 c c3 fn Fa0 Fa1 Fa2 Fa3 Fa4 F0 F1 F2 F3 F4 sa0 sa1 sa2 sa3 sa4 la mu), δ (Gen23.GL_N2_sm2_to2_s3 c c3 fn Fa0 Fa1 Fa2 Fa3 Fa4 F0 F1 F2 F3 F4 sa0 sa1 sa2 sa3 sa4 la mu), δ (Gen23.GL_N2_sm2_to2_s4 c c3 fn Fa0 Fa1 Fa2 Fa3 Fa4 F0 F1 F2 F3 F4 sa0 sa1 sa2 sa3 sa4 la mu)]
-    = [Gen23.GL_N2_sm2_to2_K0_0 c c3 fn Fa0 Fa1 Fa2 Fa3 Fa4 F0 F1 F2 F3 F4 sa0 sa1 sa2 sa3 sa4 la mu * δ F0 + Gen23.GL_N2_sm2_to2_K0_1 c c3 fn Fa0 Fa1 Fa2 Fa3 Fa4 F0 F1 F2 F3 F4 sa0 sa1 sa2 sa3 sa4 la mu * δ F1 + Gen23.GL_N2_sm2_to2_K0_2 c c3 fn Fa0 Fa1 Fa2 Fa3 Fa4 F0 F1 F2 F3 F4 sa0 sa1 sa2 sa3 sa4 la mu * δ F2 + Gen23.GL_N2_sm2_to2_K0_3 c c3 fn Fa0 Fa1 Fa2 Fa3 Fa4 F0 F1 F2 F3 F4 sa0 sa1 sa2 sa3 sa4 la mu * δ F3 + Gen23.GL_N2_sm2_to2_K0_4 c c3 fn Fa0 Fa1 Fa2 Fa3 Fa4 F0 F1 F2 F3 F4 sa0 sa1 sa2 sa3 sa4 la mu * δ F4,
-       Gen23.GL_N2_sm2_to2_K1_0 c c3 fn Fa0 Fa1 Fa2 Fa3 Fa4 F0 F1 F2 F3 F4 sa0 sa1 sa2 sa3 sa4 la mu * δ F0 + Gen23.GL_N2_sm2_to2_K1_1 c c3 fn Fa0 Fa1 Fa2 Fa3 Fa4 F0 F1 F2 F3 F4 sa0 sa1 sa2 sa3 sa4 la mu * δ F1 + Gen23.GL_N2_sm2_to2_K1_2 c c3 fn Fa0 Fa1 Fa2 Fa3 Fa4 F0 F1 F2 F3 F4 sa0 sa1 sa2 sa3 sa4 la mu * δ F2 + Gen23.GL_N2_sm2_to2_K1_3 c c3 fn Fa0 Fa1 Fa2 Fa3 Fa4 F0 F1 F2 F3 F4 sa0 sa1 sa2 sa3 sa4 la mu * δ F3 + Gen23.GL_N2_sm2_to2_K1_4 c c3 fn Fa0 Fa1 Fa2 Fa3 Fa4 F0 F1 F2 F3 F4 sa0 sa1 sa2 sa3 sa4 la mu * δ F4,
-       Gen23.GL_N2_sm2_to2_K2_0 c c3 fn Fa0 Fa1 Fa2 Fa3 Fa4 F0 F1 F2 F3 F4 sa0 sa1 sa2 sa3 sa4 la mu * δ F0 + Gen23.GL_N2_sm2_to2_K2_1 c c3 fn Fa0 Fa1 Fa2 Fa3 Fa4 F0 F1 F2 F3 F4 sa0 sa1 sa2 sa3 sa4 la mu * δ F1 + Gen23.GL_N2_sm2_to2_K2_2 c c3 fn Fa0 Fa1 Fa2 Fa3 Fa4 F0 F1 F2 F3 F4 sa0 sa1 sa2 sa3 sa4 la mu * δ F2 + Gen23.GL_N2_sm2_to2_K2_3 c c3 fn Fa0 Fa1 Fa2 Fa3 Fa4 F0 F1 F2 F3 F4 sa0 sa1 sa2 sa3 sa4 la mu * δ F3 + Gen23.GL_N2_sm2_to2_K2_4 c c3 fn Fa0 Fa1 Fa2 Fa3 Fa4 F0 F1 F2 F3 F4 sa0 sa1 sa2 sa3 sa4 la mu * δ F4,
-       Gen23.GL_N2_sm2_to2_K3_0 c c3 fn Fa0 Fa1 Fa2 Fa3 Fa4 F0 F1 F2 F3 F4 sa0 sa1 sa2 sa3 sa4 la mu * δ F0 + Gen23.GL_N2_sm2_to2_K3_1 c c3 fn Fa0 Fa1 Fa2 Fa3 Fa4 F0 F1 F2 F3 F4 sa0 sa1 sa2 sa3 sa4 la mu * δ F1 + Gen23.GL_N2_sm2_to2_K3_2 c c3 fn Fa0 Fa1 Fa2 Fa3 Fa4 F0 F1 F2 F3 F4 sa0 sa1 sa2 sa3 sa4 la mu * δ F2 + Gen23.GL_N2_sm2_to2_K3_3 c c3 fn Fa0 Fa1 Fa2 Fa3 Fa4 F0 F1 F2 F3 F4 sa0 sa1 sa2 sa3 sa4 la mu * δ F3 + Gen23.GL_N2_sm2_to2_K3_4 c c3 fn Fa0 Fa1 Fa2 Fa3 Fa4 F0 F1 F2 F3 F4 sa0 sa1 sa2 sa3 sa4 la mu * δ F4,
-       Gen23.GL_N2_sm2_to2_K4_0 c c3 fn Fa0 Fa1 Fa2 Fa3 Fa4 F0 F1 F2 F3 F4 sa0 sa1 sa2 sa3 sa4 la mu * δ F0 + Gen23.GL_N2_sm2_to2_K4_1 c c3 fn Fa0 Fa1 Fa2 Fa3 Fa4 F0 F1 F2 F3 F4 sa0 sa1 sa2 sa3 sa4 la mu * δ F1 + Gen23.GL_N2_sm2_to2_K4_2 c c3 fn Fa0 Fa1 Fa2 Fa3 Fa4 F0 F1 F2 F3 F4 sa0 sa1 sa2 sa3 sa4 la mu * δ F2 + Gen23.GL_N2_sm2_to2_K4_3 c c3 fn Fa0 Fa1 Fa2 Fa3 Fa4 F0 F1 F2 F3 F4 sa0 sa1 sa2 sa3 sa4 la mu * δ F3 + Gen23.GL_N2_sm2_to2_K4_4 c c3 fn Fa0 Fa1 Fa2 Fa3 Fa4 F0 F1 F2 F3 F4 sa0 sa1 sa2 sa3 sa4 la mu * δ F4] := by
-  have d2 : δ (2 : K) = 0 := by simpa using δ.map_natCast 2
-  have d1 : δ (1 : K) = 0 := δ.map_one_eq_zero
-  simp only [gen_simp, Derivation.leibniz_div, Derivation.leibniz, Derivation.map_sub, Derivation.map_add, Derivation.map_neg,
-    d1, d2, hla, hmu, hf0, hf1, hf2, hf3, hf4, smul_eq_mul, List.cons.injEq, and_true]
-  repeat' apply And.intro
-  all_goals ring1
-end deriv
 end N2
 
 /-! ## 3D -/
@@ -120,14 +98,6 @@ theorem GL_N3_stress_PK2 (hc : c * c = 2) :
     [Gen23.GL_N3_sm1_to1_s0 c c3 fn Fa0 Fa1 Fa2 Fa3 Fa4 Fa5 Fa6 Fa7 Fa8 F0 F1 F2 F3 F4 F5 F6 F7 F8 sa0 sa1 sa2 sa3 sa4 sa5 la mu, Gen23.GL_N3_sm1_to1_s1 c c3 fn Fa0 Fa1 Fa2 Fa3 Fa4 Fa5 Fa6 Fa7 Fa8 F0 F1 F2 F3 F4 F5 F6 F7 F8 sa0 sa1 sa2 sa3 sa4 sa5 la mu, Gen23.GL_N3_sm1_to1_s2 c c3 fn Fa0 Fa1 Fa2 Fa3 Fa4 Fa5 Fa6 Fa7 Fa8 F0 F1 F2 F3 F4 F5 F6 F7 F8 sa0 sa1 sa2 sa3 sa4 sa5 la mu, Gen23.GL_N3_sm1_to1_s3 c c3 fn Fa0 Fa1 Fa2 Fa3 Fa4 Fa5 Fa6 Fa7 Fa8 F0 F1 F2 F3 F4 F5 F6 F7 F8 sa0 sa1 sa2 sa3 sa4 sa5 la mu, Gen23.GL_N3_sm1_to1_s4 c c3 fn Fa0 Fa1 Fa2 Fa3 Fa4 Fa5 Fa6 Fa7 Fa8 F0 F1 F2 F3 F4 F5 F6 F7 F8 sa0 sa1 sa2 sa3 sa4 sa5 la mu, Gen23.GL_N3_sm1_to1_s5 c c3 fn Fa0 Fa1 Fa2 Fa3 Fa4 Fa5 Fa6 Fa7 Fa8 F0 F1 F2 F3 F4 F5 F6 F7 F8 sa0 sa1 sa2 sa3 sa4 sa5 la mu] = M3.mandel3 c (SVK la mu (EGL (Fmat3 F0 F1 F2 F3 F4 F5 F6 F7 F8))) := by
   simp only [gen_simp, SVK, EGL, Fmat3, M3.ofTens, M3.mandel2, M3.mandel3, M3.trace, M3.smul_def, M3.smul, M3.add_def, M3.add,
     M3.sub_def, M3.sub, M3.one_def, M3.one, M3.mul_def, M3.mul, M3.transpose, List.cons.injEq, and_true]
-  repeat' apply And.intro
-  all_goals c55_ring hc
-
-theorem GL_N3_stress_PK1 (hc : c * c = 2) :
-    [Gen23.GL_N3_sm2_to1_s0 c c3 fn Fa0 Fa1 Fa2 Fa3 Fa4 Fa5 Fa6 Fa7 Fa8 F0 F1 F2 F3 F4 F5 F6 F7 F8 sa0 sa1 sa2 sa3 sa4 sa5 sa6 sa7 sa8 la mu, Gen23.GL_N3_sm2_to1_s1 c c3 fn Fa0 Fa1 Fa2 Fa3 Fa4 Fa5 Fa6 Fa7 Fa8 F0 F1 F2 F3 F4 F5 F6 F7 F8 sa0 sa1 sa2 sa3 sa4 sa5 sa6 sa7 sa8 la mu, Gen23.GL_N3_sm2_to1_s2 c c3 fn Fa0 Fa1 Fa2 Fa3 Fa4 Fa5 Fa6 Fa7 Fa8 F0 F1 F2 F3 F4 F5 F6 F7 F8 sa0 sa1 sa2 sa3 sa4 sa5 sa6 sa7 sa8 la mu, Gen23.GL_N3_sm2_to1_s3 c c3 fn Fa0 Fa1 Fa2 Fa3 Fa4 Fa5 Fa6 Fa7 Fa8 F0 F1 F2 F3 F4 F5 F6 F7 F8 sa0 sa1 sa2 sa3 sa4 sa5 sa6 sa7 sa8 la mu, Gen23.GL_N3_sm2_to1_s4 c c3 fn Fa0 Fa1 Fa2 Fa3 Fa4 Fa5 Fa6 Fa7 Fa8 F0 F1 F2 F3 F4 F5 F6 F7 F8 sa0 sa1 sa2 sa3 sa4 sa5 sa6 sa7 sa8 la mu, Gen23.GL_N3_sm2_to1_s5 c c3 fn Fa0 Fa1 Fa2 Fa3 Fa4 Fa5 Fa6 Fa7 Fa8 F0 F1 F2 F3 F4 F5 F6 F7 F8 sa0 sa1 sa2 sa3 sa4 sa5 sa6 sa7 sa8 la mu, Gen23.GL_N3_sm2_to1_s6 c c3 fn Fa0 Fa1 Fa2 Fa3 Fa4 Fa5 Fa6 Fa7 Fa8 F0 F1 F2 F3 F4 F5 F6 F7 F8 sa0 sa1 sa2 sa3 sa4 sa5 sa6 sa7 sa8 la mu, Gen23.GL_N3_sm2_to1_s7 c c3 fn Fa0 Fa1 Fa2 Fa3 Fa4 Fa5 Fa6 Fa7 Fa8 F0 F1 F2 F3 F4 F5 F6 F7 F8 sa0 sa1 sa2 sa3 sa4 sa5 sa6 sa7 sa8 la mu, Gen23.GL_N3_sm2_to1_s8 c c3 fn Fa0 Fa1 Fa2 Fa3 Fa4 Fa5 Fa6 Fa7 Fa8 F0 F1 F2 F3 F4 F5 F6 F7 F8 sa0 sa1 sa2 sa3 sa4 sa5 sa6 sa7 sa8 la mu] = M3.tens3 ((Fmat3 F0 F1 F2 F3 F4 F5 F6 F7 F8) * SVK la mu (EGL (Fmat3 F0 F1 F2 F3 F4 F5 F6 F7 F8))) := by
-  have hi : c⁻¹ = c / 2 := c_inv hc two_ne_zero
-  simp only [gen_simp, SVK, EGL, Fmat3, M3.ofTens, M3.tens2, M3.tens3, M3.trace, M3.smul_def, M3.smul, M3.add_def, M3.add,
-    M3.sub_def, M3.sub, M3.one_def, M3.one, M3.mul_def, M3.mul, M3.transpose, List.cons.injEq, and_true, div_eq_mul_inv, hi]
   repeat' apply And.intro
   all_goals c55_ring hc
 
